@@ -960,6 +960,12 @@ def tRegisterPQ (x : Extras) (ts : TState) (id : Nat) (comps : List Nat) (platfo
             nodes := ts.nodes ++ sizes.map (fun sc => mkNode ⟨id, sc⟩ [] 0),
             limits := aset id x.stick ts.limits }
 
+/-- `RegisterPredeclaredPlatformQueue` rejects a platform key that already exists (`AlreadyExists`) and
+size-class lists that are not strictly increasing (`InvalidArgument`; only distinctness matters here).
+`Model/Sched.lean` leaves this to its environment. -/
+def registerOK (ts : TState) (id : Nat) (sizes : List Nat) : Bool :=
+  ts.s.scqs.all (fun sq => decide (sq.id.pq ≠ id)) && decide sizes.Nodup
+
 /-! ## steps and runs -/
 
 /-- a segment of the tree layer: a `Sched.Seg` plus the answers `Sched.lean` has no use for -/
@@ -969,7 +975,9 @@ structure TSeg where
 
 def tstep (ts : TState) (g : TSeg) : M TState :=
   match g.seg with
-  | .register id comps platform sizes bgMax bgPrio => pure (tRegisterPQ g.x ts id comps platform sizes bgMax bgPrio)
+  | .register id comps platform sizes bgMax bgPrio =>
+    if registerOK ts id sizes then pure (tRegisterPQ g.x ts id comps platform sizes bgMax bgPrio)
+    else throw "register: the platform queue exists already or the size classes are not distinct"
   | .exec h now c d dk dnc comps platform inv prio => tExecArrive h g.x ts now c d dk dnc comps platform inv prio
   | .wait h now c name => tWaitArrive h g.x ts now c name
   | .streamWake h now c reason => tStreamWake h g.x ts now c reason
